@@ -1,7 +1,7 @@
 //! C28: the language server's document copy under didOpen/didChange histories.
 //!
 //! line: id \t <case> \t <impl output>
-//!   case  ::= [(e2e)] (open V "<text>") (note V <change>…)… [(probes (L C)…)]
+//!   case  ::= [(e2e)] [(disk "<text on disk, already loaded by the server>")] (open V "<text>") (note V <change>…)… [(probes (L C)…)]
 //!   change::= (ch SL SC EL EC "<text>") | (full "<text>")
 //!   output::= (docs "<after open>" "<after note 1>" …) (ver V | crash <kind>) (idx I…)
 //! Unit cases call the hooked code in-process: `FileCache::verif_update` (didOpen path),
@@ -34,6 +34,8 @@ struct Note {
 }
 #[derive(Clone, Debug)]
 struct Case {
+    /// text of the file on disk that the server has already loaded (`load_once`) before the client opens it
+    disk: Option<String>,
     e2e: bool,
     open_ver: i32,
     text: String,
@@ -45,6 +47,9 @@ fn print_case(c: &Case) -> String {
     let mut o = String::new();
     if c.e2e {
         o.push_str("(e2e) ");
+    }
+    if let Some(d) = &c.disk {
+        o.push_str(&format!("(disk {}) ", quote(d)));
     }
     o.push_str(&format!("(open {} {})", c.open_ver, quote(&c.text)));
     for n in &c.notes {
@@ -128,13 +133,17 @@ fn atom_num<T: std::str::FromStr>(s: &Sx) -> Option<T> {
 fn parse_case(input: &str) -> Option<Case> {
     let cs: Vec<char> = input.chars().collect();
     let mut i = 0;
-    let mut case = Case { e2e: false, open_ver: 0, text: String::new(), notes: vec![], probes: vec![] };
+    let mut case = Case { disk: None, e2e: false, open_ver: 0, text: String::new(), notes: vec![], probes: vec![] };
     let mut opened = false;
     while let Some(sx) = parse_sx(&cs, &mut i) {
         let Sx::L(items) = sx else { return None };
         let Some(Sx::A(head)) = items.first() else { return None };
         match head.as_str() {
             "e2e" => case.e2e = true,
+            "disk" => {
+                let Sx::S(t) = items.get(1)? else { return None };
+                case.disk = Some(t.clone());
+            }
             "open" => {
                 case.open_ver = atom_num(items.get(1)?)?;
                 let Sx::S(t) = items.get(2)? else { return None };
@@ -261,6 +270,12 @@ fn run_unit(case: &Case) -> String {
     let fc = FileCache::new(Some(tx));
     let idx = probes_out(&case.text, &case.probes);
     let mut docs = vec![];
+    if let Some(d) = case.disk.clone() {
+        // what `FileCache::load_once` does after reading the file: update(uri, code, None)
+        if let Err(e) = catch(AssertUnwindSafe(|| fc.verif_update(&uri, d, None))) {
+            return finish(&docs, &format!("(crash {})", crash_kind(&e)), &idx);
+        }
+    }
     let (text, ver) = (case.text.clone(), case.open_ver);
     if let Err(e) = catch(AssertUnwindSafe(|| fc.verif_update(&uri, text, Some(ver)))) {
         return finish(&docs, &format!("(crash {})", crash_kind(&e)), &idx);
@@ -287,8 +302,19 @@ struct E2e {
 
 impl E2e {
     fn start() -> Result<E2e, String> {
-        let dir = std::env::temp_dir().join(format!("c28-e2e-{}", std::process::id()));
+        E2e::start_in(None)
+    }
+
+    /// `main_text = Some(t)`: the working directory is an erg package (`package.er` + `main.er` containing `t`), which the
+    /// server's workspace check loads from disk at start-up, before any didOpen is processed
+    fn start_in(main_text: Option<&str>) -> Result<E2e, String> {
+        static DIRS: AtomicUsize = AtomicUsize::new(0);
+        let dir = std::env::temp_dir().join(format!("c28-e2e-{}-{}", std::process::id(), DIRS.fetch_add(1, Ordering::Relaxed)));
         std::fs::create_dir_all(&dir).map_err(|e| e.to_string())?;
+        if let Some(t) = main_text {
+            std::fs::write(dir.join("package.er"), "").map_err(|e| e.to_string())?;
+            std::fs::write(dir.join("main.er"), t).map_err(|e| e.to_string())?;
+        }
         // the server scans the current directory for *.er files at start-up: give it an empty one
         std::env::set_current_dir(&dir).map_err(|e| e.to_string())?;
         let mut client = Server::bind_fake_client();
@@ -319,7 +345,7 @@ impl E2e {
 
     fn run(&mut self, case: &Case) -> String {
         self.seq += 1;
-        let path = self.dir.join(format!("doc{}.er", self.seq));
+        let path = if case.disk.is_some() { self.dir.join("main.er") } else { self.dir.join(format!("doc{}.er", self.seq)) };
         let url = Url::from_file_path(&path).unwrap();
         let uri = NormalizedUrl::new(url.clone());
         let idx = probes_out(&case.text, &case.probes);
@@ -362,7 +388,7 @@ impl E2e {
 
 // ------------------------------------------------------------------------------------------- generators
 
-const ASCII: &[&str] = &["a", "b", "x", "=", "1", " ", "#", "(", ")", ".", "\t"];
+const ASCII: &[&str] = &["a", "b", "x", "=", "1", " ", "#", "(", ")", ".", "\t", "\"", "\\", "'", "{", "}", ":", "0"];
 const BMP: &[&str] = &["é", "あ", "ß", "\u{301}", "\u{ffff}", "語"];
 const ASTRAL: &[&str] = &["😀", "𝒳", "\u{10000}", "\u{10ffff}"];
 const ERG_LINES: &[&str] = &["x = 1", "# あ", "# 😀 note", "print! x", "f y = y + 1", "s = 'é'", "l = [1, 2]", "    x", "#"];
@@ -505,7 +531,12 @@ fn gen_case(rng: &mut Rng, e2e: bool) -> Case {
     } else {
         gen_doc(rng)
     };
-    let mut case = Case { e2e, open_ver: rng.range(0, 3) as i32, text: text.clone(), notes: vec![], probes: vec![] };
+    let disk = if !e2e && rng.chance(1, 8) {
+        Some(if rng.chance(1, 3) { text.clone() } else { gen_doc(rng) })
+    } else {
+        None
+    };
+    let mut case = Case { disk, e2e, open_ver: rng.range(0, 3) as i32, text: text.clone(), notes: vec![], probes: vec![] };
     for _ in 0..rng.below(5) {
         case.probes.push(gen_pos(rng, &text));
     }
@@ -568,6 +599,21 @@ fn main() {
                     }
                     Err(e) => println!("e0\t(e2e) (open 0 \"\")\tserver-start-failed({})", quote(&e)),
                 }
+                // documents the server has already loaded from disk (package entry file), opened with other content
+                for i in 0..(n_e2e / 20).max(2) {
+                    let mut c = gen_case(&mut rng, true);
+                    c.disk = Some(format!("{}\n", pk(&mut rng, ERG_LINES)));
+                    c.open_ver = rng.range(0, 2) as i32;
+                    let mut v = c.open_ver;
+                    for n in c.notes.iter_mut() { v += 1; n.ver = v; }
+                    match E2e::start_in(c.disk.as_deref()) {
+                        Ok(mut s) => {
+                            println!("p{}\t{}\t{}", i, print_case(&c), s.run(&c));
+                            let _ = std::fs::remove_dir_all(&s.dir);
+                        }
+                        Err(e) => println!("p{}\t{}\tserver-start-failed({})", i, print_case(&c), quote(&e)),
+                    }
+                }
             }
             use std::io::Write;
             let _ = std::io::stdout().flush();
@@ -578,6 +624,16 @@ fn main() {
             let mut srv: Option<E2e> = None;
             for (id, input) in stdin_cases() {
                 match parse_case(&input) {
+                    Some(c) if c.e2e && c.disk.is_some() => {
+                        // own server: the package's main.er must be on disk before the server starts
+                        match E2e::start_in(c.disk.as_deref()) {
+                            Ok(mut s) => {
+                                println!("{}\t{}\t{}", id, input, s.run(&c));
+                                let _ = std::fs::remove_dir_all(&s.dir);
+                            }
+                            Err(e) => println!("{}\t{}\tserver-start-failed({})", id, input, quote(&e)),
+                        }
+                    }
                     Some(c) if c.e2e => {
                         if srv.is_none() { srv = E2e::start().ok(); }
                         match srv.as_mut() {
